@@ -47,6 +47,8 @@ TRUSTED = [
     "the allocator is abstract in the theorems (contract `AllocLaws`: alloc returns a region disjoint from every live one and "
     "adds exactly it; free removes exactly the region at that offset) — C28 owns the allocator's own invariants and write "
     "containment (bytes written <= bytes allocated); `firstFit` (transliteration of ShmAllocator) is proved to satisfy the contract",
+    "schemas are abstracted in the model: the delivered schema (types incl. nested children, nullability, field and schema "
+    "metadata) is compared with inline delivery by the oracle, and the decode shape of `_deserialize_from_shm` is extracted",
     "batch sizes (`nbytes`, requested bytes) are measured by the harness with the code's own formulas and passed to the model",
     "the C++-style client that offers its request batch to the segment is emulated in the harness (`call_via_shm_request`)",
 ]
@@ -57,7 +59,9 @@ PARTIAL = [
     "`on_log` callbacks that raise, and dynamic (per-request attach) segments, are not generated",
 ]
 RULE = (
-    "program = 2-5 methods (unary int/bytes results of 0-300 payload bytes; producer/exchange with okind int/dict/zero/mix, "
+    "program = 2-5 methods (unary int/bytes results of 0-300 payload bytes; producer/exchange with okind int/dict/zero/mix, dictA/dictB/dictC "
+    "(schemas equal for pyarrow but with different field / schema metadata, used in one process) or ndl/nds/ndm (dictionary "
+    "nested in list / struct / map), "
     "0-5 steps, rows chosen so nbytes straddles the threshold, optional header / init failure / early input release) x history "
     "(calls with 0-200 padding bytes std or pointer-request; sessions ticked 0..len+2 times then close/cancel; exchange inputs "
     "int/dict/int32/renamed/extra; release(k) anywhere, repeated) x threshold in {0,1,8,16,64,100,4096,131072} x segment size in "
@@ -81,7 +85,9 @@ H = shmsvc.shm_mod.HEADER_SIZE
 THRS = [0, 0, 1, 1, 8, 8, 16, 16, 64, 64, 100, 100, 4096, 131072]          # weighted: small thresholds route more
 SEGS = [H + 1, H + 4000, H + 4272, H + 4272, H + 4400, H + 4400, H + 9000, H + 9000, H + 13000, H + 13000, H + 30000, H + 30000,
         1 << 20, 1 << 20, 1 << 20]
-OKINDS = ["int", "int", "dict", "zero", "mix"]
+OKINDS = ["int", "int", "dict", "zero", "mix", "dictA", "dictB", "dictC", "ndl", "nds", "ndm"]
+PER_ROW = {"int": 8, "dict": 4, "dictA": 4, "dictB": 4, "dictC": 4, "zero": 1, "mix": 20, "ndl": 16, "nds": 16, "ndm": 22}
+SIBLINGS = {"dictA": ["dictB", "dictC"], "dictB": ["dictA", "dictC"], "dictC": ["dictA", "dictB"], "dict": ["dictA"]}
 
 
 # ------------------------------------------------------------------------------------------ generators
@@ -105,7 +111,7 @@ def gen_batch(rng: Any, ids: Ids, thr: int, kind: str) -> dict[str, Any]:
     meta = {}
     if rng.random() < 0.3:
         meta[rng.choice(["a", "app.key", "z"])] = rng.choice(["b", "", "ü", "1"])
-    per = {"int": 8, "dict": 4, "zero": 1, "mix": 20}[kind]
+    per = PER_ROW[kind]
     rows = rows_near(rng, thr, per)
     if kind == "zero" and rows > 2000:
         rows = 2000
@@ -150,6 +156,13 @@ def gen_service(rng: Any, ids: Ids, thr: int) -> dict[str, Any]:
                             "early": kind == "exchange" and rng.random() < 0.25, "header": rng.random() < 0.3,
                             "hdr": rng.randrange(100), "init_logs": gen_logs(rng, 2), "init": init,
                             "steps": gen_steps(rng, ids, thr, okind, kind == "exchange")})
+    # schemas that pyarrow considers equal but that carry different metadata, used in ONE process
+    for m in list(methods):
+        if m["kind"] != "unary" and m.get("okind") in SIBLINGS and rng.random() < 0.7:
+            ok = rng.choice(SIBLINGS[m["okind"]])
+            methods.append({"name": f"s{len(methods)}", "kind": "producer", "okind": ok, "ikind": "int", "early": False,
+                            "header": rng.random() < 0.2, "hdr": 1, "init_logs": [], "init": "ok",
+                            "steps": gen_steps(rng, ids, thr, ok, False)})
     if not any(m["kind"] != "unary" for m in methods):
         methods.append({"name": "px", "kind": "producer", "okind": "int", "ikind": "int", "early": False, "header": False, "hdr": 0,
                         "init_logs": [], "init": "ok", "steps": gen_steps(rng, ids, thr, "int", False)})
@@ -188,6 +201,16 @@ def gen_script(rng: Any, ids: Ids, thr: int, desc: dict[str, Any]) -> list[list[
                 maybe_release()
             script.append([rng.choice(["close", "close", "cancel"])])
         maybe_release()
+    # equal-looking schemas (metadata variants) are all exercised in this one process, one after the other
+    sib = [m for m in desc["methods"] if m["kind"] == "producer" and m.get("okind") in SIBLINGS and m.get("init", "ok") == "ok"]
+    if len(sib) >= 2:
+        for m in sib + [sib[0]]:
+            script.append(["open", m["name"], 1])
+            for _k in range(rng.choice([1, 2])):
+                script.append(["tick"])
+                nheld += 1
+            script.append(["close"])
+            maybe_release()
     return script
 
 
@@ -370,7 +393,14 @@ def check_one(ctx: Any, desc: dict[str, Any], script: list[list[Any]], thr: int,
             return
     if r["contents"] != r0["contents"]:
         i = next(i for i, (a, b) in enumerate(zip(r["contents"], r0["contents"])) if a != b) if len(r["contents"]) == len(r0["contents"]) else -1
-        ctx.fail(dict(case, batch_index=i), "C29:transparency:content", f"delivered batch #{i} differs from inline delivery")
+        what, detail = "content", ""
+        if i >= 0:
+            ca, cb = json.loads(r["contents"][i]), json.loads(r0["contents"][i])
+            what = "schema" if ca["schema"] != cb["schema"] else "values"
+            detail = f": over shm {ca[what][:300]} but inline {cb[what][:300]}"
+        ctx.fail(dict(case, batch_index=i), f"C29:transparency:{what}",
+                 f"delivered batch #{i} differs from inline delivery in its {what} (schema = names, types, nullability, field and "
+                 f"schema metadata){detail}")
         return
     if srv_seen(r["events"]) != srv_seen(r0["events"]):
         ctx.fail(case, "C29:transparency:server-input", "the server's user code saw different requests / inputs over shm than inline: "
@@ -494,7 +524,22 @@ def _corpus() -> list[tuple[dict[str, Any], list[list[Any]], int, int]]:
                ["open", "xe", 1], ["send", 227, 6, "dict"], ["send", 228, 6, "dict"], ["cancel"], ["release", 0], ["release", 1]]
     s_partial = [["open", "p", 1], ["tick"], ["cancel"], ["open", "p", 1], ["tick"], ["tick"], ["close"], ["release", 1],
                  ["open", "x", 1], ["send", 231, 2, "int"], ["close"]]
+    # schema shapes: equal-looking dictionary schemas with different metadata in one process; nested dictionary children
+    P = lambda name, kind, base, n=2, rows=6: {"name": name, "kind": "producer", "okind": kind, "header": False, "init_logs": [],  # noqa: E731
+                                               "init": "ok", "steps": [S({"emit": {"id": base + k, "rows": rows}}) for k in range(n)]}
+    d2 = {"methods": [P("da", "dictA", 301), P("db", "dictB", 311), P("dc", "dictC", 321), P("nl", "ndl", 331), P("ns", "nds", 341),
+                      P("nm", "ndm", 351, 2, 9),
+                      {"name": "xn", "kind": "exchange", "okind": "ndl", "ikind": "dict", "early": False, "header": False, "init_logs": [],
+                       "init": "ok", "steps": [S({"emit": {"id": 361 + k, "rows": 5}}) for k in range(2)]},
+                      {"name": "u", "kind": "unary", "rk": "int", "logs": [], "out": {"ok": 5}}]}
+    run_p = lambda n, k=2: [["open", n, 1]] + [["tick"]] * k + [["close"]]  # noqa: E731
+    s_meta = run_p("da") + run_p("db") + run_p("da", 1) + run_p("dc") + run_p("db", 1) + [["release", 0], ["release", 3]]
+    s_nested = (run_p("nl") + [["call", "u", 371, 0, "std"]] + run_p("ns") + run_p("nm") + [["open", "xn", 1], ["send", 372, 4, "dict"],
+                ["send", 373, 4, "dict"], ["close"], ["call", "u", 374, 0, "shmreq"], ["release", 1]])
     out = []
+    for s in (s_meta, s_nested):
+        for thr, seg in ((0, 1 << 20), (16, H + 30000)):
+            out.append((d2, s, thr, seg))
     for s in (s_double, s_coerce, s_initfail, s_mixed, s_partial):
         for thr, seg in ((0, 1 << 20), (1, H + 13000), (16, H + 4400), (0, H + 1), (131072, 1 << 20)):
             out.append((d1, s, thr, seg))
@@ -537,7 +582,7 @@ def run(ctx: Any) -> None:
         ctx.note("exhaustive_small_histories", _exhaustive_small(ctx))
     corpus = _corpus()
     if ctx.tier != "thorough" and not ctx.deep:
-        corpus = corpus[::2] + corpus[1:6:2]
+        corpus = corpus[:4] + corpus[4::2] + corpus[5:10:2]
     for desc, script, thr, seg in corpus:
         check_one(ctx, desc, script, thr, seg)
     for _ in range(ctx.budget(110, 1800)):
